@@ -92,7 +92,12 @@ def recovery(rep, prog, P):
     named P.2 (Reset cell), P.3 (no dependence on STALE data), P.4 (closure over reachable abstract states)."""
     # ---- step 2: the Reset cell
     fs = FrameSetup(prog, mtu_ok=True)
-    res, obs, stats = run_regions(fs, regions=['topo.rest'])
+    # the record invariant the entry state assumes (no cached icon => recorded size 0) is kept by every handler
+    from .frame_common import icon_invariant
+    res_all, _o, _s = run_regions(fs)
+    rep.rule(P + '.5', 'record invariant kept by every cell of the dispatch matrix: no cached icon => recorded icon size 0 (assumed of every entry record)', floor=9)
+    icon_invariant(rep, P + '.5', fs, res_all)
+    res = {'topo.rest': res_all['topo.rest']}
     srec = fs.srec
     structural = {'iface_ctx', 'next'}
     post = None
@@ -111,6 +116,7 @@ def recovery(rep, prog, P):
             ty = fs.ix.parse_type(qt)
             n = fs.ix.sizeof(ty)
             bs = [st.canon(b) for b in mem.load_bytes(st, so, C(off), n)]
+            bs = [ZERO if (b != ZERO and st.dom(b).lo == 0 and st.dom(b).hi == 0) else b for b in bs]     # known to be 0 on this path
             if ty.kind == 'ptr':
                 v = st.canon(mem.load_scalar(st, so, C(off), ty))
                 if v == ZERO:
